@@ -595,7 +595,8 @@ def gen_cases(ctx, d, rng, tools, thorough):
         flags += "s"
     cases.append(Case("gen-F", "gensquashfs", argv + common + ["-c", comp, "-e", "@OUT@"], "file",
                       model=("packer", "gen", flags, nreg, "-"), cut=("tree", str(T))))
-    cases.append(Case("gen-D", "gensquashfs", ["-D", str(T)] + common + ["@OUT@"], "file", model=("packer", "gen", "d", nreg, "-"),
+    nscan = count_files(T)              # a directory scan packs every regular file it meets, the option files and the hard link included
+    cases.append(Case("gen-D", "gensquashfs", ["-D", str(T)] + common + ["@OUT@"], "file", model=("packer", "gen", "d", nscan, "-"),
                       cut=("tree", str(T))))
     # ---- relative output name × pack directory (the unlink of the cleanup is resolved against the *current* directory)
     R = d / "rel"
@@ -628,11 +629,11 @@ def gen_cases(ctx, d, rng, tools, thorough):
     M.mkdir()
     (M / "pack.txt").write_text("".join("dir m%04d 0755 0 0\n" % i for i in range(512)))
     cases.append(Case("gen-many", "gensquashfs", ["-F", str(M / "pack.txt"), "-j", "1", "-e", "-q", "@OUT@"], "file",
-                      model=("packer", "gen", "peq", 0, "-"), plan="realloc-tail"))
+                      model=("packer", "gen", "pdeq", 0, "-"), plan="realloc-tail"))
     # ---- several compressor threads: teardown after a failure in the middle of a run
     jm = str(rng.choice([2, 3, 4]))
     cases.append(Case("gen-mt", "gensquashfs", ["-D", str(T), "-b", str(BS), "-j", jm, "-c", comp, "-q", "@OUT@"], "file",
-                      model=("packer", "gen", "dq", nreg, "-"), plan="sample:%d" % (600 if thorough else 140), mt=True))
+                      model=("packer", "gen", "dq", nscan, "-"), plan="sample:%d" % (600 if thorough else 140), mt=True))
     # ---- an image for the readers, made by the (fault-free) packer built from the same tree
     img = d / "img.sqfs"
     r = vlib.sh([str(tools["gensquashfs"]), "-F", str(T / "pack.txt"), "-D", str(T), "-A", str(T / "xattr.txt"), "-b", str(BS), "-j", "1",
@@ -681,7 +682,7 @@ def boundary_cases(ctx, d, thorough):
     (M / "pack.txt").write_text("\n".join(lines) + "\n")
     (M / "xattr.txt").write_text("\n".join(xl))
     cases.append(Case("b-meta", "gensquashfs", ["-F", str(M / "pack.txt"), "-A", str(M / "xattr.txt"), "-c", "gzip", "-j", "1", "-e", "-q", "@OUT@"],
-                      "file", model=("packer", "gen", "pxeq", 0, "-"), plan="stratified"))
+                      "file", model=("packer", "gen", "pdxeq", 0, "-"), plan="stratified"))
     # --- data: more blocks than the block writer's initial list (twice: second doubling inside the duplicate), a
     #     multi-block duplicate that is truncated away again, a block list per inode grown up to index ≥ blkwr_init,
     #     a duplicate tail whose fragment block is already on disk (read-back in chunk_info_equals → load_frag_block),
@@ -843,7 +844,8 @@ def cls_group(cls):
 
 
 def count_files(root):
-    return sum(1 for p in Path(root).rglob("*") if p.is_file() and not p.is_symlink())
+    """regular files a directory scan packs: one per inode (further names of the same inode become hard links)"""
+    return len({(p.lstat().st_dev, p.lstat().st_ino) for p in Path(root).rglob("*") if p.is_file() and not p.is_symlink()})
 
 
 class Dedup:
@@ -902,13 +904,18 @@ class CutRef:
         elif c.cut[0] == "tree" and os.path.realpath(path).startswith(os.path.realpath(c.cut[1]) + "/"):
             root = Path(os.path.realpath(c.cut[1]))
             rel = Path(os.path.realpath(path)).relative_to(root)
-            shutil.copytree(root, d / "t", symlinks=True)
-            # keep hard links of the copy apart from the file that is cut
-            data = (root / rel).read_bytes()[:off]
-            (d / "t" / rel).unlink()
-            (d / "t" / rel).write_bytes(data)
-            for p in [d / "t"] + sorted((d / "t").rglob("*")):
-                os.utime(p, (1000000000, 1000000000), follow_symlinks=False)
+            shutil.copytree(root, d / "t", symlinks=True, copy_function=os.link)     # hard links: same inodes, link structure kept
+            st0 = (root / rel).lstat()
+            same = [p.relative_to(root) for p in root.rglob("*") if not p.is_symlink() and p.is_file() and p.lstat().st_ino == st0.st_ino]
+            new = d / "cutfile"
+            new.write_bytes((root / rel).read_bytes()[:off])
+            os.utime(new, ns=(st0.st_atime_ns, st0.st_mtime_ns))
+            for q_ in same:                               # every name of the file that was cut
+                (d / "t" / q_).unlink()
+                os.link(new, d / "t" / q_)
+            for q_ in {x.parent for x in same}:           # directory time stamps as in the original
+                st_ = (root / q_).lstat()
+                os.utime(d / "t" / q_, ns=(st_.st_atime_ns, st_.st_mtime_ns))
             ref = run_case(c, self.exe, d / "w", self.skel, None, env_base=self.env, timeout=TIMEOUT_ISOLATED, argv_subst={str(c.cut[1]): str(d / "t")})
         shutil.rmtree(d, ignore_errors=True)
         self.cache[key] = ref
